@@ -23,7 +23,8 @@ MAXLAT = 25
 
 # the four kinds pyserial raises, and RuntimeError, which the library's own except clauses name
 EXCS = ("SerialException", "PortNotOpenError", "SerialTimeoutException", "OSError",
-        "RuntimeError")
+        "RuntimeError", "OSError_EAGAIN",
+        "InterruptedError", "BrokenPipeError")
 PRIM_PROFILE = Profile(write_exc=EXCS, read_exc=EXCS, latency=(0, 1, 24, 25, 26),
                        content=("bare", "nocomma", "echo", "commapay", "wrong", "shifted", "err",
                                 "nameerr", "sibling", "cut"), silent=True,
@@ -45,6 +46,8 @@ ALIGN_PROFILE = Profile(latency=(0, 1, 25))
 
 REQUESTS = ["V", "v", "R", "QG", "QM", "S2,0,4", "C,1,2", "SM,10,1,1", "  SM,10,1,1  ",
             "QL,3\r", "\tEM,1,1", "QT", "RB", "BL", "ST,Pen  Plotter", " ST,a\tb ",
+            # free text that means something to str.format / % (a name is any text)
+            "ST,{draft}", "ST,{0}%s", "ST,}{",
             # long low-level moves: trimmed lengths 63, 64, 65 and 128 (a USB packet is 64 bytes)
             "LM," + ",".join(["1234567890"] * 5) + ",12345",
             "  LM," + ",".join(["1234567890"] * 5) + ",123456 ",
@@ -84,7 +87,10 @@ def run_primitive(chooser, kind, request):
     if exc is not None:
         viols.append((f"raise:{ckey}", f"{where}: raised {type(exc).__name__}: {exc}"))
     want = (stripped + "\r").encode("ascii")
-    if b"".join(port.write_attempts) != want:
+    sent = b"".join(port.write_attempts)
+    if sent != want and not ("write_exc" in kinds and port.write_attempts and
+                             want.startswith(sent) and port.write_attempts[-1]):
+        # (when a write raised, what had been handed over up to there is a prefix of the request)
         # the bytes on the wire decide (a request may be handed over in several pieces)
         viols.append((f"framing:{ckey}", f"{where}: handed {port.write_attempts!r} to the port, "
                       f"expected the bytes {want!r}, once"))
@@ -345,6 +351,16 @@ def run(ctx):
                 reps.append(op)
         jobs += [("pair", (trio, 1)) for trio in itertools.product(reps, repeat=3)]
     part = core.fan_out(ctx, _dispatch, jobs)
+    # "waits through up to 25 empty reads" is an allowance per request: a long session on one
+    # object against a board that answers every request after one (three) empty reads
+    from .c06 import slow_session          # pylint: disable=import-outside-toplevel
+    for stall in (1, 2):
+        for length in (30, 70):
+            for msg in slow_session("ebb3", stall, length):
+                part.violation(f"slow_session:ebb3:{stall}:{length}", msg,
+                               {"kind": "slow_session", "layer": "ebb3", "stall": stall,
+                                "length": length})
+            part.count("slow_sessions")
     # the application has switched logging to DEBUG: the conforming exchange of every request
     # string must look exactly the same (bytes, reads, result)
     from ..explore import Chooser                       # pylint: disable=import-outside-toplevel
@@ -401,6 +417,9 @@ def run(ctx):
 
 
 def replay(case):
+    if case.get("kind") == "slow_session":
+        from .c06 import slow_session      # pylint: disable=import-outside-toplevel
+        return slow_session(case["layer"], case["stall"], case["length"])
     if case.get("kind") == "debuglog":
         from ..explore import Chooser                   # pylint: disable=import-outside-toplevel
         plain = run_primitive(Chooser([]), case["call"], case["request"])
